@@ -342,6 +342,31 @@ def check_observable(p):
                 p.violation(f"C15:sampled_parameter_not_at_bound|KDGaussianBlurTV|sigma_{end}", dict(observable=True, f=f),
                             f"factor {f}: sampled sigma {ctx['KDGaussianBlurTV.sigma']} vs bound {want}")
             p.evaluations += 2
+        # magnitude samplers: whatever the generator answers (also extreme normal draws / both ends of the uniform range), the
+        # sampled magnitude lies inside the range scaled by the factor
+        from kappadata.utils.magnitude_sampler import MagnitudeSampler
+        for std in (0.0, 0.2, float("inf")):
+            for zi in range(3):
+                ms = MagnitudeSampler(magnitude=0.6, magnitude_std=std, magnitude_min=0.1, magnitude_max=0.9)
+                ms.scale_strength(f)
+                rng = ChoiceRng(Chooser((zi,)), z=(-1e6, 0.0, 1e6), frac=(0.0, 0.5, 1.0))
+                got = ms.sample(rng)
+                p.evaluations += 1
+                lo, hi = 0.1 * f, (0.9 if std not in (0.0, float("inf")) else 0.6) * f
+                if not (lo - 1e-12 <= got <= hi + 1e-12):
+                    p.violation(f"C15:sampled_magnitude_outside_scaled_range|MagnitudeSampler|std={'0' if std == 0 else 'inf' if std == float('inf') else 'finite'}",
+                                dict(observable=True, f=f), f"factor {f}, magnitude_std {std}, generator answer #{zi}: sampled {got}, scaled range [{lo}, {hi}]")
+        for zi in range(3):
+            noise = cat.leaf_class("KDAdditiveGaussianNoise")(std=0.1, magnitude=0.6, magnitude_std=0.2, magnitude_min=0.1, magnitude_max=0.9)
+            noise.scale_strength(f)
+            noise.set_rng(ChoiceRng(Chooser((zi,)), z=(-1e6, 0.0, 1e6)))
+            ctx = {}
+            noise(torch.rand(3, 4, 4), ctx=ctx)
+            mags = [v for k, v in ctx.items() if "magnitude" in k]
+            p.evaluations += 1
+            if not mags or not (0.1 * f - 1e-12 <= float(mags[0]) <= 0.9 * f + 1e-12):
+                p.violation("C15:sampled_magnitude_outside_scaled_range|KDAdditiveGaussianNoise|", dict(observable=True, f=f),
+                            f"factor {f}, generator answer #{zi}: recorded magnitude {mags}, scaled range [{0.1 * f}, {0.9 * f}]")
         so = cat.leaf_class("KDSolarize")(threshold=0.25)
         so.scale_strength(f)
         ctx = {}
